@@ -578,6 +578,7 @@ func twccOracle(b []byte, tokens string) string {
 	// st: the status symbols the chunks announce; a run length is clipped to what is left of the packet
 	// status count, a status vector chunk always announces all its 14 or 7 symbols
 	var st []int
+	var wantChunks []string
 	processed := 0
 	off := 20
 	for processed < count {
@@ -587,6 +588,22 @@ func twccOracle(b []byte, tokens string) string {
 		w := int(binary.BigEndian.Uint16(b[off:]))
 		off += 2
 		left := count - processed
+		switch {
+		case w>>15 == 0:
+			wantChunks = append(wantChunks, fmt.Sprintf("0 0 %d %d", w>>13&3, w&0x1fff))
+		case w>>14&1 == 0:
+			c := "1 1 0 14"
+			for i := 13; i >= 0; i-- {
+				c += fmt.Sprintf(" %d", w>>uint(i)&1)
+			}
+			wantChunks = append(wantChunks, c)
+		default:
+			c := "1 1 1 7"
+			for i := 6; i >= 0; i-- {
+				c += fmt.Sprintf(" %d", w>>uint(2*i)&3)
+			}
+			wantChunks = append(wantChunks, c)
+		}
 		switch {
 		case w>>15 == 0:
 			n := w & 0x1fff
@@ -624,6 +641,16 @@ func twccOracle(b []byte, tokens string) string {
 			}
 			want = append(want, rtcp.RecvDelta{Type: 2, Delta: 250 * int64(int16(binary.BigEndian.Uint16(b[off:])))})
 			off += 2
+		}
+	}
+	if len(wantChunks) != len(t.PacketChunks) {
+		return fmt.Sprintf("%d status chunks before the status count is reached, %d decoded", len(wantChunks), len(t.PacketChunks))
+	}
+	for i, c := range t.PacketChunks {
+		w := &W{}
+		putTwccChunk(w, c)
+		if w.String() != wantChunks[i] {
+			return fmt.Sprintf("status chunk %d decodes to [%s], the wire word says [%s]", i, w.String(), wantChunks[i])
 		}
 	}
 	if len(want) != len(t.RecvDeltas) {
@@ -883,8 +910,11 @@ func unitOracle(base, kind, args, res string) string {
 		}
 	case "enc.RREP":
 		x := getRRep(NewR(args))
-		if (x.TotalLost < 1<<24) != isOK {
-			return ""
+		if x.TotalLost < 1<<24 && !isOK {
+			return "a reception report whose fields all fit their wire widths is rejected"
+		}
+		if x.TotalLost >= 1<<24 && isOK {
+			return "cumulative lost of 2^24 or more encoded"
 		}
 		if isOK {
 			b := make([]byte, 24)
@@ -924,6 +954,20 @@ func unitOracle(base, kind, args, res string) string {
 		}
 		if res != okHex([]byte{byte(w >> 8), byte(w)}) {
 			return "metric block encodes differently from RFC 8888"
+		}
+	case "xrchunk.":
+		c := NewR(args).U()
+		want := ""
+		switch {
+		case c == 0:
+			want = "ok 2 0 1 0" // terminating null; RunType is an error
+		case c>>15 == 1:
+			want = fmt.Sprintf("ok 1 0 1 %d", c&0x7fff)
+		default:
+			want = fmt.Sprintf("ok 0 %d 0 %d", c>>14&1, c&0x3fff)
+		}
+		if res != want {
+			return fmt.Sprintf("XR chunk %#04x: accessors give %s, RFC 3611 §4.1.1-4.1.3 give %s", c, clip(res, 30), want)
 		}
 	case "dec.RLC":
 		b := NewR(args).H()
